@@ -122,6 +122,33 @@ def run_kani(prop, tier, seed):
 
 
 # ---------------------------------------------------------------------------------------------
+def unsafe_inventory(under_contract):
+    """every `unsafe` block of /repo/src (non-test code) with its enclosing function; covered = that function is under contract
+    in a unit serving C13.  under_contract: set of (file relative to repo, impl type or '', fn name)"""
+    import glob
+    files = sorted(glob.glob(os.path.join(REPO, "src", "**", "*.rs"), recursive=True))
+    req = {"items": [{"id": os.path.relpath(f, REPO), "file": f, "kind": "inventory", "name": ""} for f in files]}
+    rp = os.path.join(VERIF, "build", "inventory.req.json")
+    os.makedirs(os.path.dirname(rp), exist_ok=True)
+    json.dump(req, open(rp, "w"))
+    p = subprocess.run([os.path.join(VERIF, "tools/vx/target/release/vx"), rp], capture_output=True, text=True)
+    if p.returncode != 0:
+        return {"error": p.stderr[-500:]}
+    total, covered, open_sites = 0, 0, []
+    for item in json.loads(p.stdout):
+        rel = item["id"]
+        for row in item.get("inventory", []):
+            total += 1
+            fn = row["fn"]
+            name = fn.split("::")[-1]
+            ok = any(f == rel and n == name and (not t or t in fn) for (f, t, n) in under_contract)
+            if ok:
+                covered += 1
+            else:
+                open_sites.append("%s:%s %s" % (rel, row["line"], fn))
+    return {"unsafe_blocks_total": total, "unsafe_blocks_in_functions_under_contract": covered, "unsafe_blocks_not_covered": open_sites}
+
+
 def uncovered(prop):
     p = os.path.join(VERIF, "uncovered.json")
     if os.path.exists(p):
